@@ -1555,6 +1555,100 @@ impl<K: Hash + Eq, V, E: OnEvictCallback, S: BuildHasher> RawLRU<K, V, E, S> {
     }
 }
 
+/// Structural snapshot of a [`RawLRU`], produced by `verif_audit` (verification hook).
+#[cfg(feature = "verif-hooks")]
+#[doc(hidden)]
+pub struct VerifAudit<'a, K, V> {
+    /// `(node address, address of the node's key field, key, value)` walking `head.next` towards `tail`
+    pub fwd: Vec<(usize, usize, &'a K, &'a V)>,
+    /// node addresses walking `tail.prev` towards `head`
+    pub bwd: Vec<usize>,
+    /// `(address the KeyRef points at, node address)` for every index entry (hash-map order)
+    pub index: Vec<(usize, usize)>,
+    /// address of the head sentinel
+    pub head: usize,
+    /// address of the tail sentinel
+    pub tail: usize,
+    /// configured capacity
+    pub cap: usize,
+    /// `map.len()`
+    pub len: usize,
+    /// whether an eviction callback is installed
+    pub has_cb: bool,
+    /// false when a walk met a null pointer or did not reach the other sentinel within `len + 1` steps
+    pub walks_terminated: bool,
+    /// `head.prev` and `tail.next` are null
+    pub sentinels_closed: bool,
+}
+
+#[cfg(feature = "verif-hooks")]
+impl<K, V, E, S> RawLRU<K, V, E, S> {
+    /// Verification hook: walk the list in both directions (bounded) and dump the index.
+    #[doc(hidden)]
+    pub fn verif_audit(&self) -> VerifAudit<'_, K, V> {
+        let limit = self.map.len() + 1;
+        let mut fwd = Vec::new();
+        let mut bwd = Vec::new();
+        let mut ok = true;
+        unsafe {
+            let mut node = (*self.head).next;
+            loop {
+                if node.is_null() {
+                    ok = false;
+                    break;
+                }
+                if node == self.tail {
+                    break;
+                }
+                if fwd.len() >= limit {
+                    ok = false;
+                    break;
+                }
+                fwd.push((
+                    node as usize,
+                    (*node).key.as_ptr() as usize,
+                    &*(*node).key.as_ptr(),
+                    &*(*node).val.as_ptr(),
+                ));
+                node = (*node).next;
+            }
+            let mut node = (*self.tail).prev;
+            loop {
+                if node.is_null() {
+                    ok = false;
+                    break;
+                }
+                if node == self.head {
+                    break;
+                }
+                if bwd.len() >= limit {
+                    ok = false;
+                    break;
+                }
+                bwd.push(node as usize);
+                node = (*node).prev;
+            }
+        }
+        let index = self
+            .map
+            .iter()
+            .map(|(k, n)| (k.k as usize, n.as_ptr() as usize))
+            .collect();
+        VerifAudit {
+            fwd,
+            bwd,
+            index,
+            head: self.head as usize,
+            tail: self.tail as usize,
+            cap: self.cap,
+            len: self.map.len(),
+            has_cb: self.on_evict.is_some(),
+            walks_terminated: ok,
+            sentinels_closed: unsafe { (*self.head).prev.is_null() && (*self.tail).next.is_null() },
+        }
+    }
+}
+
 impl<K, V, E, S> Drop for RawLRU<K, V, E, S> {
     fn drop(&mut self) {
         self.map.drain().for_each(|(_, node)| unsafe {
